@@ -1585,3 +1585,82 @@ mutant("c02-polling-answer-before-onpacket", "C02", "C02-D6", "engine.io/transpo
 	}
 	t.callbacks.OnPacket(packets...)
 }""")
+
+# ---------------------------------------------------------------- C07 (round 2)
+mutant("c07-resend-skips-ping", "C07", "C07-D2", "engine.io/server_socket.go",
+       "		if p.Type != parser.PacketTypeNoop {", "		if p.Type != parser.PacketTypeNoop && p.Type != parser.PacketTypePing {")
+mutant("c07-resend-only-messages", "C07", "C07-D2", "engine.io/server_socket.go",
+       "		if p.Type != parser.PacketTypeNoop {", "		if p.Type == parser.PacketTypeMessage {")
+mutant("c07-eio-error-fatal-on-server", "C07", "C07-D7", "server_conn.go",
+       "		OnError:  c.onError,", "		OnError:  c.onFatalError,")
+mutant("c07-upgradeTo-in-goroutine", "C07", "C07-D7", "engine.io/server.go",
+       "socket.upgradeTo(t, c)", "go socket.upgradeTo(t, c)")
+
+# ---------------------------------------------------------------- C09 (round 2)
+mutant("c09-hasbinary-skips-nested-slices", "C09", "C09-D6", "parser/json/binary.go",
+       """			switch sk {
+			case reflect.Ptr, reflect.Interface, reflect.Struct, reflect.Slice:
+				l := rv.Len()""",
+       """			switch sk {
+			case reflect.Ptr, reflect.Interface, reflect.Struct:
+				l := rv.Len()""")
+mutant("c09-reconstruct-skips-maps", "C09", "C09-D6", "parser/json/binary.go",
+       "	case reflect.Map:\n		err := r.reconstructMap(rv)", "	case reflect.Chan:\n		err := r.reconstructMap(rv)")
+
+# ---------------------------------------------------------------- C12 (round 2)
+mutant("c12-event-chain-cached-forever", "C12", "C12-D1", "middleware.go",
+       """	s.middlewareFuncsMu.RLock()
+	funcs := slices.Clone(s.middlewareFuncs)
+	s.middlewareFuncsMu.RUnlock()
+
+	for _, f := range funcs {
+		err := s.callMiddlewareFunc(f, values)""",
+       """	s.middlewareFuncsMu.Lock()
+	if s.middlewareFuncsCopy == nil {
+		s.middlewareFuncsCopy = slices.Clone(s.middlewareFuncs)
+	}
+	funcs := s.middlewareFuncsCopy
+	s.middlewareFuncsMu.Unlock()
+
+	for _, f := range funcs {
+		err := s.callMiddlewareFunc(f, values)""")
+MUTANTS[-1]["then"] = ("server_socket.go", "	middlewareFuncs   []reflect.Value\n", "	middlewareFuncs   []reflect.Value\n	middlewareFuncsCopy []reflect.Value\n")
+
+# ---------------------------------------------------------------- C03 (round 2)
+mutant("c03-called-set-before-decode", "C03", "C03-D1", "server_socket.go",
+       """	inputArgs := ack.inputArgs
+	if ack.hasError {""",
+       """	ack.mu.Lock()
+	if ack.timedOut {
+		ack.mu.Unlock()
+		return
+	}
+	ack.called = true
+	ack.mu.Unlock()
+
+	inputArgs := ack.inputArgs
+	if ack.hasError {""")
+mutant("c03-retry-callback-on-every-failure", "C03", "C03-D5", "client_packet_queue.go",
+       """				pq.mu.Unlock()
+				if haveAck {
+					rv.Call(args)
+				}
+			}
+		} else {""",
+       """				pq.mu.Unlock()
+			}
+			if haveAck {
+				rv.Call(args)
+			}
+		} else {""")
+mutant("c03-retry-dequeue-on-every-failure", "C03", "C03-D5", "client_packet_queue.go",
+       """			if tryCount > pq.socket.config.Retries {
+				pq.debug.Log("Packet with ID", packet.id, "discarded after", tryCount)
+				pq.mu.Lock()
+				pq.queuedPackets = pq.queuedPackets[1:]
+				pq.mu.Unlock()""",
+       """			pq.mu.Lock()
+			pq.queuedPackets = pq.queuedPackets[1:]
+			pq.mu.Unlock()
+			if tryCount > pq.socket.config.Retries {
+				pq.debug.Log("Packet with ID", packet.id, "discarded after", tryCount)""")
